@@ -2,7 +2,8 @@
    (each is decided by computation; a change of the classes that invalidates one breaks the build), and the
    generic theorems instantiated with it. *)
 From Coq Require Import List String Ascii ZArith Bool.
-From PV Require Import Serial.Model Serial.Proofs Serial.HashProofs Serial.Grammar Serial.GrammarProofs.
+From PV Require Import Serial.Model Serial.Proofs Serial.HashProofs Serial.OrderProofs Serial.Grammar Serial.GrammarProofs.
+From PV Require Import Serial.Ast Serial.AstProofs.
 From PV Require Import Generated.C12_Schema.
 Import ListNotations.
 Local Open Scope string_scope.
@@ -21,6 +22,10 @@ Proof. vm_compute. reflexivity. Qed.
 
 (* pickle_utils.Encoder is Encoder(order="deterministic") *)
 Lemma pytd_encoder_deterministic : deterministic pytd_schema = true.
+Proof. vm_compute. reflexivity. Qed.
+
+(* no field default contains a set (so "equal to the default" does not depend on a set's order) *)
+Lemma pytd_defaults_set_free : defaults_set_free pytd_schema = true.
 Proof. vm_compute. reflexivity. Qed.
 
 (* pickle_utils.AstDecoder decodes the root struct, which the grammar's start symbol produces *)
@@ -44,10 +49,29 @@ Lemma ast_roundtrip_pytd : forall hv v,
   decode pytd_schema hv (FStruct root) (encode pytd_schema v) = Some v.
 Proof. intros hv v Hg Hh. apply roundtrip_pytd. now apply grammar_conforms_pytd. Qed.
 
+Lemma typed_grammar_conforms_pytd : forall hv (a : sast),
+  sast_wf a = true -> hooks_all pytd_schema hv (to_value a) = true ->
+  conforms pytd_schema hv (to_value a) (FStruct root) = true.
+Proof. intros hv a Hw Hh. apply grammar_conforms_pytd; auto. now apply to_value_in_G. Qed.
+
+Lemma typed_roundtrip_pytd : forall hv (a : sast),
+  sast_wf a = true -> hooks_all pytd_schema hv (to_value a) = true ->
+  decode pytd_schema hv (FStruct root) (encode pytd_schema (to_value a)) = Some (to_value a).
+Proof. intros hv a Hw Hh. apply roundtrip_pytd. now apply typed_grammar_conforms_pytd. Qed.
+
 Lemma reencode_stable_pytd : forall hv v f,
   conforms pytd_schema hv v f = true ->
   option_map (encode pytd_schema) (decode pytd_schema hv f (encode pytd_schema v)) = Some (encode pytd_schema v).
 Proof. intros hv. apply reencode_stable_lemma. exact pytd_schema_wf. Qed.
+
+Lemma encode_order_independent_pytd : forall v v',
+  sets_of_strs v = true -> sets_of_strs v' = true -> vcanon v = vcanon v' ->
+  encode pytd_schema v = encode pytd_schema v'.
+Proof.
+  apply encode_order_independent_lemma.
+  - exact pytd_encoder_deterministic.
+  - exact pytd_defaults_set_free.
+Qed.
 
 Lemma eq_hash_law_fixed_pytd : forall a b,
   members_hash_distinct pytd_schema HvFixed a = true -> members_hash_distinct pytd_schema HvFixed b = true ->
